@@ -108,6 +108,10 @@ def verify_contract(reg, c, timeout_ms=10000, feas_timeout_ms=2000, canary=True,
                 env[name] = eng.lift(eval(ks[1:], vars(mod)))
                 continue
             k = parse_kind(ks)
+            if k.name == 'pytuple':
+                # *args of a fixed arity: a tuple of symbolic items
+                env[name] = eng.make_tuple([eng.sym(f'{name}{j}', a) for j, a in enumerate(k.args)])
+                continue
             if isinstance(raw, classmethod) and name == params[0]:
                 env[name] = const(owner)
                 continue
